@@ -62,6 +62,14 @@ pub fn register(m: &mut HashMap<&'static str, OpFn>) {
         q.hash(&mut h2);
         vec![tb(p == q), tb(bool::from(p.ct_eq(&q))), tb(h1.0 == h2.0), hex(&h1.0)]
     });
+    m.insert("mt.csel", |a| {
+        use subtle::ConditionallySelectable;
+        let (p, q) = (MontgomeryPoint(a.b32(0)), MontgomeryPoint(a.b32(1)));
+        let c = subtle::Choice::from(a.boolean(2) as u8);
+        let mut r = p;
+        r.conditional_assign(&q, c);
+        vec![hex(MontgomeryPoint::conditional_select(&p, &q, c).as_bytes()), hex(r.as_bytes())]
+    });
     m.insert("mt.elligator", |a| {
         vec![hex(verif::montgomery_elligator_encode(&a.fe(0)).as_bytes())]
     });
